@@ -237,3 +237,30 @@ def check_sibling_selectors(ctx, out, rule="C18.siblings"):
     else:
         out.viol(rule, "%s|drift" % rule, ctx.where(a), "the content selectors of check-lua and check-ai differ: only-lua %s, only-ai %s" % (dict(fa - fb), dict(fb - fa)))
         out.inst(rule, 0, 1)
+
+
+def task_resolver(ctx, co, task):
+    """labels of the task body -> labels at the spawn site. Captures of an async block are resolved
+    through the closure environment; when the task is the body of an `async fn` of the crate
+    (`tasks.spawn(check_one(ctx, path, idx))`) its upvars are that function's parameters, which are
+    replaced by the origins of the arguments at the call in the spawning body."""
+    parent = ctx.facts.body(task.parent) if task.parent else None
+    site = None
+    if parent is not None and parent.kind in ("Fn", "AssocFn") and co is not None:
+        for bi, t in co.calls():
+            if (t.get("res") or t.get("def") or "") == parent.id:
+                site = t
+
+    def resolve(labs):
+        labs = ctx.prov.resolve_upvars(task, labs)
+        if site is None:
+            return labs
+        out = set()
+        for lab in labs:
+            if lab[0] == "param" and 1 <= lab[1] <= len(site["args"]):
+                base = ctx.prov.read_operand(co, site["args"][lab[1] - 1])
+                out |= {(b[0], b[1], (tuple(b[2]) + tuple(lab[2]))[:8]) for b in base}
+            else:
+                out.add(lab)
+        return out
+    return resolve
